@@ -533,7 +533,7 @@ def find(req):
             u = run(m._pkcs7_unpad, p, 16)
             if u != d:
                 return bad("_pkcs7_unpad", {"data": p.hex()}, d.hex(), hx(u))
-    for badpad in (b"abc\x00", b"abc\x11", b"ab\x02\x03", bytes(15) + b"\x05"):
+    for badpad in (bytes(12) + b"abc\x00", bytes(12) + b"abc\x11", bytes(12) + b"ab\x02\x03", bytes(15) + b"\x05", bytes(31) + b"\x00", bytes(30) + b"\x03\x02"):
         try:
             r = m._pkcs7_unpad(badpad, 16)
             return bad("_pkcs7_unpad", {"data": badpad.hex()}, "ValueError", bytes(r).hex())
